@@ -155,15 +155,11 @@ func (v *version) tokenEdits(w []pair) []string {
 			e[i] = j
 			add(v.header, e) // replace by junk
 		}
-		// every other legal value and one illegal
-		for _, mt := range v.metrics {
-			if mt.abv == w[i].a {
-				for _, val := range mt.values {
-					e = cp()
-					e[i] = mt.abv + ":" + val
-					add(v.header, e)
-				}
-			}
+		// every value string that occurs anywhere in any version's tables (legal for this metric or not)
+		for _, val := range valueUniverse() {
+			e = cp()
+			e[i] = w[i].a + ":" + val
+			add(v.header, e)
 		}
 	}
 	for i := 0; i <= len(els); i++ {
@@ -200,6 +196,27 @@ func (v *version) tokenEdits(w []pair) []string {
 		res = append(res, full[:cut])
 	}
 	return res
+}
+
+var valueUniv []string
+
+// all value strings of all metrics of all versions
+func valueUniverse() []string {
+	if valueUniv == nil {
+		seen := map[string]bool{}
+		for _, v := range versions {
+			for _, mt := range v.metrics {
+				for _, x := range mt.values {
+					if !seen[x] {
+						seen[x] = true
+						valueUniv = append(valueUniv, x)
+					}
+				}
+			}
+		}
+		sort.Strings(valueUniv)
+	}
+	return valueUniv
 }
 
 func mutateBytes(s string) string {
@@ -336,7 +353,7 @@ func streamDefect(thorough bool) {
 				return false
 			}
 			for i, p := range w {
-				for _, bad := range []string{"", strings.ToLower(p.v), "ZZ", p.v + "x", "X ", "ND", "X", "S", "Y", "Red", "POC"} {
+				for _, bad := range append([]string{"", strings.ToLower(p.v), "ZZ", p.v + "x", "X "}, valueUniverse()...) {
 					if !legal(p.a, bad) {
 						emitD("illegal", i, 0, "", bad, v.render(with(i, pair{p.a, bad})))
 					}
@@ -371,7 +388,7 @@ func streamDefect(thorough bool) {
 				}
 			}
 			for j := 0; j <= len(w); j++ {
-				for _, a := range []string{"XX", "av", "AVV", "", "A V", "E ", "mav", "Q"} {
+				for _, a := range []string{"XX", "av", "AVV", "", "A V", "E ", "mav", "Q", "MAVX", "Safety", "ABCDEFGHIJ", "CVSS", "MSIS"} {
 					isM := false
 					for _, mt := range v.metrics {
 						if mt.abv == a {
